@@ -255,8 +255,10 @@ CLAIMED = {
                 ' normalised output; and over the regenerated SGP4 model: (cos u, sin u) is a unit vector, and on every answered propagation of both reachable leaves '
                 "the plane's inclination is within (3/4) k2/pL^2 of the element set's (hence within 0.05 deg for pL >= 0.69 earth radii) and the node within (3/2) "
                 "k2/pL^2 of the secular node. The report's pre-correction rates and radius satisfy vis-viva exactly (v^2/2 - mu/r = -mu/2a) and the rate corrections "
-                'are bounded by k2 n/pL and 3 k2 n/pL. The other clauses (velocity = d position/dt within 0.15 %, perigee/apogee band, returned energy within 1 %, '
-                'orbit summary) are facts about the SGP4 theory and are checked by sampling',
+                'are bounded by k2 n/pL and 3 k2 n/pL; on every answered propagation the geocentric distance satisfies a(1-eL) <= r <= a(1+eL) and |returned radius - '
+                'r| <= (3 k2/pL^2 r + k2/(2 pL)) XKMPER (below 23 km for pL >= 1, r <= 2 earth radii: the osculating half of the perigee/apogee clause). The other '
+                "clauses (velocity = d position/dt within 0.15 %, the step from the osculating band to the TLE's perigee/apogee, returned energy within 1 %, orbit "
+                'summary) are facts about the SGP4 theory and are checked by sampling',
         "design_ref": 'DESIGN.md 5/C20',
         "note": 'trusted: Coq kernel, stdlib real axioms, translator (self-checked each run). Sampled clauses are not proved; say so in evidence.assumptions',
         "technique": 'Coq proof (ring with trigonometric identities) over source-regenerated model; finite-difference and node-scan oracle on the implementation',
